@@ -121,6 +121,29 @@ def shrink_regrow_scenarios(rng, n):
     return scs
 
 
+def regrow_empty_scenarios(rng, n):
+    """an area shrunk to NOTHING, another area created around the place, stores into it, then the empty one is grown again:
+    the growth must be refused (it would take addresses of the other area) and the stores must read back"""
+    scs = []
+    for k in range(n):
+        b = mc.Builder(f"rge{k}")
+        at = BASE + rng.choice([8, 16, 20])
+        ln = rng.choice([4, 8, 16])
+        b.api(op="mem_init_area", start=at, data=[rng.randrange(1, 256) for _ in range(ln)])
+        b.api(op="mem_resize_section", start=at, new=0)
+        lo = at - rng.choice([0, 4, 8])
+        b.api(op="mem_init_area", start=lo, data=[rng.randrange(1, 256) for _ in range(at - lo + ln + rng.choice([0, 4, 12]))])
+        b.api(op="mem_write_bytes", addr=at, data=[0xa1, 0xa2, 0xa3, 0xa4])
+        b.api(op="mem_resize_section", start=at, new=rng.choice([1, 4, ln, ln + 8]))
+        b.api(op="mem_read_bytes", addr=at, len=4)
+        b.guest("load32", at)
+        b.guest("store32", at)
+        b.api(op="mem_resize_section", start=at, new=0)
+        b.api(op="mem_read_bytes", addr=lo, len=at - lo + 4)
+        scs.append(b.scenario())
+    return scs
+
+
 def api_scenarios(rng, n, length):
     scs = []
     for k in range(n):
@@ -241,7 +264,7 @@ def run(tier, seed):
         sc2 = api_scenarios(rng, 250 if q else 16000, 14 if q else 24)
         n2, s2, _ = mc.validate(sc2, wd, "api", rep, 8 if q else 14)
         sc3 = guest_scenarios(rng, 200 if q else 12000, 8 if q else 14)
-        sc3 += shrink_regrow_scenarios(rng, 120 if q else 10000)
+        sc3 += shrink_regrow_scenarios(rng, 120 if q else 10000) + regrow_empty_scenarios(rng, 40 if q else 2000)
         n3, s3, _ = mc.validate(sc3, wd, "guest", rep, 8 if q else 14)
         kinds = set()
         for s in sc1 + sc2 + sc3:
